@@ -3,7 +3,7 @@
 Oracles (no reference codec needed here - C07 is the differential one):
   L1 round trip      decode(encode(v)) == v   (REAL to binary32, NaN == NaN, fixed arrays truncate,
                      derived-length arrays: decode(lenType.encode(len(v)) + encode(v)) as documented)
-  L2 stream law      decode(BytesIO(wire + junk)) == v, tell() == len(wire), junk untouched
+  L2 stream law      decode(BytesIO(wire + junk)) == v, tell() == len(wire), junk untouched; the same at a non-zero stream position
   L3 composition     Struct(A, B..).encode([a, b..]) == A.encode(a) + B.encode(b) ..;  T[n].encode(vs) == concat
   L4 dict == sequence  encoding of a structure from a dict equals encoding from a positional sequence
 """
@@ -138,6 +138,19 @@ def check_pair(t, v, junk=b"\xa5\x5a\x00"):
                 discs.append(Disc(f"stream.junk.{tk}", "following data was altered"))
         except PycommError as e:
             discs.append(Disc(f"stream.decode-raises.{tk}", f"type={t} value={v!r} raised {e!r}"[:600]))
+        # L2b: the value does not start the stream (what precedes it is the bitwise complement, so a read at an absolute position shows)
+        prefix = bytes(b ^ 0xFF for b in wire) or b"\xff"
+        s = io.BytesIO(prefix + wire + j)
+        s.seek(len(prefix))
+        try:
+            got3 = C.build(t).decode(s)
+            pos = s.tell() - len(prefix)
+            if not R.ref_equal(got3, expected):
+                discs.append(Disc(f"stream.offset.value.{tk}", f"type={t} value={v!r} decoded at stream position {len(prefix)}: {got3!r}"[:700]))
+            elif pos != len(wire):
+                discs.append(Disc(f"stream.offset.position.{tk}", f"type={t} value={v!r}: encoded {len(wire)} bytes, decode at position {len(prefix)} consumed {pos}"[:700]))
+        except PycommError as e:
+            discs.append(Disc(f"stream.offset.decode-raises.{tk}", f"type={t} value={v!r} at stream position {len(prefix)} raised {e!r}"[:600]))
         # L3 / L4
         if t["k"] == "struct":
             seq = C.struct_as_sequence(t, v)
